@@ -7,8 +7,8 @@ its own vector (round trip), random right-length vectors, hostile arrays and eve
 import numpy as np
 
 from vf.core import Workload
-from vf import taps, gen, tx
-from vf.digest import digest, diff, writeable_flags
+from vf import taps, gen, tx, warm
+from vf.digest import digest, diff, writeable_flags, shared
 
 ID = "C05"
 TECHNIQUE = "runtime monitoring: post-condition taps on as_vector / from_vector with OLD state digests and full-state round-trip comparison"
@@ -130,6 +130,15 @@ class FromVectorMonitor(taps.Monitor):
                 ctx.fail("wrong_length_vector_gave_a_malformed_object", cls=cls, mech=type(e).__name__, error=repr(e)[:200],
                          given=len(st["v"]), expected=len(own))
             return
+        # aliasing between the template and the instance is recorded, not judged (the statement forbids from_vector changing
+        # the object it is called on, not sharing buffers with it)
+        try:
+            sh = shared(r, o)
+            if sh:
+                ctx.bump("instance_shares_a_buffer_with_its_template_observed")
+                ctx.see("shared_between_template_and_instance", (cls, str(sh[0])[:60]))
+        except Exception:
+            pass
         # ---- right length: from_vector(v).as_vector() == v
         back = np.asarray(r.as_vector())
         given = st["v"]
@@ -172,7 +181,9 @@ class FromVectorMonitor(taps.Monitor):
                 elif o.pixels.dtype != r.pixels.dtype:
                     why = "dtype differs"
                 else:
-                    why = diff(o._landmarks, r._landmarks)
+                    # (an empty manager, created lazily by any earlier read of .landmarks, is the same state as none)
+                    la, lb = (x if x is not None and len(x._landmark_groups) else None for x in (o._landmarks, r._landmarks))
+                    why = diff(la, lb)
             else:
                 why = diff(o, r)
             if why:
@@ -253,6 +264,11 @@ def random_vector(rng, o, n):
 def w_objects(ctx, rng, i):
     o, desc = make_object(rng, i)
     cls = type(o).__name__
+    warmed = bool(rng.random() < 0.5)
+    if warmed:
+        # history: the object has already answered all its read-only queries (whatever it memoised must not matter later)
+        ctx.bump("queries_answered_before_vectorisation", warm.warm(o))
+    desc = desc + ("warm" if warmed else "cold",)
     try:
         v = o.as_vector()
     except NotImplementedError:
